@@ -355,6 +355,95 @@ def history_case(ctx, spec, calls, rng):
             ctx.note("history:edit=" + op)
 
 
+# ------------------------------------------------------------------------------------------------ real Style objects
+_REAL = {}
+
+
+def real_palette():
+    """atomic styles as REAL rich Style objects (index 0 must be the null style): attributes on and off, colours,
+    links, and styles that are equal (==) but built differently, so that Style.__add__, Style.copy and Style.__eq__
+    are the real ones in Text.render and Text.get_style_at_offset"""
+    if not _REAL:
+        from rich.console import Console
+        from rich.style import Style
+
+        _REAL["console"] = Console(width=80, color_system="truecolor", force_terminal=True)
+        _REAL["styles"] = [
+            Style.null(),
+            Style(bold=True),
+            Style(color="red"),
+            Style(italic=True, color="blue"),
+            Style(link="x"),
+            Style(bold=False),
+            Style.parse("bold"),
+            Style(link="y", bold=True),
+            Style(color="red", bold=True),
+            Style(underline=True, link="x"),
+        ]
+    return _REAL["console"], _REAL["styles"]
+
+
+def real_key(console, st):
+    """what Style.__eq__ compares (bgcolor is never used here): fg number, attribute bits, set bits, link"""
+    if isinstance(st, str):
+        st = console.get_style(st)
+    fg = "N" if st._color is None else str(st._color.number)
+    lk = "N" if not st._link else enc_str(st._link)
+    return f"{fg}/{st._attributes}/{st._set_attributes}/{lk}"
+
+
+def real_case(ctx, s, base_i, spans_i, args):
+    from rich.style import Style
+    from rich.text import Span, Text
+
+    console, pal = real_palette()
+    w, j, ov, ts, nw = args
+    t = Text(s, style=pal[base_i], spans=[Span(a, b, pal[k]) for a, b, k in spans_i])
+    table = "|".join(real_key(console, p).replace("/", ";") for p in pal)
+    text_req = ";".join([enc_str(s), str(len(s)), str(base_i), "/".join(f"{a},{b},{k}" for a, b, k in spans_i), "N", "N", "N", enc_str("\n"), "8"])
+    req = [table, FLAGS, text_req, w, W.J[j], W.O[ov], W.enc_opt(ts), W.enc_optbool(nw)]
+    lines = list(t.wrap(console, w, justify=j, overflow=ov, tab_size=ts, no_wrap=nw))
+
+    def enc_line(l):
+        try:
+            segs = "/".join(enc_str(sg.text) + "~" + ("-" if sg.style is None else real_key(console, sg.style)) for sg in l.render(console, end=""))
+        except Exception as e:  # noqa: BLE001
+            segs = "err:" + type(e).__name__
+        spans = "/".join(f"{a},{b},{real_key(console, st)}" for a, b, st in l._spans)
+        return ";".join([enc_str(l.plain), str(l._length), real_key(console, l.style), spans]) + "@" + segs
+
+    ctx.case("wrap_wrap_real", req, "ok:%d#" % len(lines) + "|".join(enc_line(l) for l in lines), shape=f"j={j}",
+             sample=f"REAL styles: Text({s!r}, style=#{base_i}, spans={spans_i!r}).wrap({w}, justify={j!r}, overflow={ov!r})")
+    # direct evaluation with real Style.__add__ / __eq__: the Style every non-whitespace character is rendered with
+    def expected(i):
+        return Style.combine([pal[base_i]] + [pal[k] for a, b, k in spans_i if a <= i < b])
+
+    ins = [(c, expected(i)) for i, c in enumerate(s) if not c.isspace()]
+    out = []
+    for l in lines:
+        for sg in l.render(console, end=""):
+            out += [(c, sg.style) for c in sg.text if not c.isspace()]
+    eff_ov = ov or "fold"
+    nowrap = bool(nw) or ov == "ignore"
+    inp = (s, base_i, spans_i, args)
+    if (eff_ov == "fold" and not nowrap) or eff_ov == "ignore":
+        ok = len(out) == len(ins) and all(a[0] == b[0] and a[1] == b[1] for a, b in zip(out, ins))
+        ctx.check(ok, "wrap:real-style", inp, f"with real Style objects the rendered (char, Style) stream {[(c, str(x)) for c, x in out]!r} differs from the input's {[(c, str(x)) for c, x in ins]!r}")
+    else:
+        i = 0
+        ok = True
+        for c, st in out:
+            if c == "…":
+                continue
+            while i < len(ins) and not (ins[i][0] == c and ins[i][1] == st):
+                i += 1
+            if i == len(ins):
+                ok = False
+                break
+            i += 1
+        ctx.check(ok, "wrap:real-style", inp, "with real Style objects the rendered (char, Style) stream is not an in-order selection of the input's")
+
+
 def gen_spec(rng, s, kmax=2, attrs=True):
     base = rng.choice(["", "", "s4", "s1"])
     spans = gen_spans(rng, len(s), kmax)
@@ -372,7 +461,7 @@ def gen_args(rng, wmax=9):
     w = rng.randint(2, wmax)
     j = rng.choice(JUSTIFY)
     ov = rng.choice([None, "fold", "fold", "crop", "ellipsis", "ignore"])
-    ts = rng.choice([8, 8, 4, 3, 2, 1])
+    ts = rng.choice([8, 8, 4, 3, 2, 1, 1, 16, 40])
     nw = rng.choice([None, None, False, False, True])
     return (w, j, ov, ts, nw)
 
@@ -494,11 +583,65 @@ def run(ctx):
         history_case(ctx, spec, calls, rng)
     ctx.flush()
 
+    # ---- 4c. a slice with REAL Style objects (bold / italic / colours / links): real __add__, copy, __eq__
+    n4c = 2500 if quick else 50000
+    npal = len(real_palette()[1])
+    for k in range(n4c):
+        s = gen_string(rng, 9, ["a", "b", " ", " ", "あ", "̀", "\t", "\n"]) if rng.random() < 0.7 else gen_prose(rng, rng.randint(8, 40))
+        n = len(s)
+        spans_i = []
+        for _ in range(rng.choice([0, 1, 2, 2, 3, 4])):
+            a_ = rng.randint(0, n)
+            b_ = rng.choice([n, rng.randint(a_, n), min(n, a_ + 2)])
+            spans_i.append((a_, b_, rng.randrange(npal)))
+        w, j, ov, ts, nw = gen_args(rng, wmax=12)
+        if rng.random() < 0.5:
+            j = "full"  # the only place where wrap itself compares and stores computed Style objects
+        real_case(ctx, s, rng.choice([0, 0, 1, 2, 4, 8]), spans_i, (w, j, ov, ts, nw))
+    ctx.flush()
+
+    # ---- 4d. the edges: zero-width characters at line ends, wide characters at the boundary (also with no_wrap),
+    #          tab sizes 1 and large, whitespace-only paragraphs, full justification of one-word and blank lines
+    edge = []
+    for w in (2, 3, 4, 5):
+        body = "a" * w
+        wide = "あ" * (w // 2) + ("a" if w % 2 else "")
+        edge += [
+            (body + "̀", w), (body + "̀̀ b", w), (body[:-1] + "̀" + "a", w), ("̀" + body, w), (body + " ̀", w),
+            (wide, w), (wide + "あ", w), ("a" + wide, w), (wide + " " + wide, w), (wide[:-1] + " あ", w), (wide + "\x1f", w),
+            (body + "\t" + body, w), ("\t" + body, w), (body + "\t", w), ("a\tあ\tb", w),
+            (body + "\n   \n" + body, w), ("   ", w), (" \n", w), ("\t\n  \n", w), (body + "\n\n", w), ("\n" + " " * (w + 2), w),
+            (" ".join([body] * 3), w), (body + "      " + body, w), (" ".join(["a"] * (w + 2)), w + 2), ("a b  c   " + body, w + 3),
+            (body + " " * (2 * w + 1) + "b\n" + body, w), ("あ " * 4, w), ("a　b　" + wide, w),
+        ]
+    for s, w in edge:
+        spans = [(0, len(s), "s1"), (max(0, len(s) - 2), len(s), "s2"), (1, 1, "s3")] if rng.random() < 0.8 else []
+        for j in (None, "left", "center", "right", "full"):
+            for ov in (None, "crop", "ellipsis", "ignore"):
+                for nw in (None, True):
+                    for ts in (1, 8) if "\t" in s else (8,):
+                        if quick and rng.random() < 0.5:
+                            continue
+                        wrap_case(ctx, (s, "s4", spans, None, None, None, 8), (w, j, ov, ts, nw), shape="edge")
+                        if ts == 8 and "\t" in s and rng.random() < 0.3:
+                            wrap_case(ctx, (s, "s4", spans, None, None, None, 8), (w, j, ov, 40, nw), shape="edge")
+    ctx.flush()
+    if not quick:
+        # the property's full range: long texts, widths up to 200
+        for k in range(6000):
+            s = gen_prose(rng, rng.randint(300, 1500))
+            spec = gen_spec(rng, s, kmax=4)
+            _, j, ov, ts, nw = gen_args(rng)
+            wrap_case(ctx, spec, (rng.choice([2, 7, 20, 50, 79, 80, 120, 199, 200, rng.randint(2, 200)]), j, ov, ts, nw), shape="long")
+        ctx.flush()
+
     # ---- 5. Lines.justify and get_style_at_offset on their own (lines that wrap itself never produces included)
     n5 = 6000 if quick else 120000
     jalpha = ["a", "b", " ", " ", "あ", "̀", "　"]
     for k in range(n5):
         specs = [gen_spec(rng, gen_string(rng, 8, jalpha), attrs=False) for _ in range(rng.choice([1, 2, 2, 3]))]
+        if rng.random() < 0.15:  # an empty / blank / one-word line that is not the last one (the `if spaces:` guard)
+            specs.insert(0, gen_spec(rng, rng.choice(["", " ", "  ", "a", "あ", "ab"]), attrs=False))
         justify_case(ctx, specs, rng.randint(2, 9), rng.choice(["left", "center", "right", "full", "full", "default"]), rng.choice(["fold", "crop", "ellipsis", "ignore"]))
     for k in range(1500 if quick else 30000):
         s = gen_string(rng, 5, ["a", " ", "あ"])
@@ -572,6 +715,17 @@ MANIFEST = {
         "are re-observed and must be unchanged."
     ),
     "note": (
+        "boundary (theorems, not comments): everything that keeps characters needs 'every character fits a line' "
+        "(forall c, cw c <= w; widths >= 2 with characters <= 2 cells is one instance - statement_range; width 1 with "
+        "single-cell characters another - width_one_single_cells); wrap_lines_fit and the two style-preservation theorems "
+        "need only w >= 1; below that the statements fail (narrow_wide_character_lost, narrow_offset_zero, "
+        "narrow_width_zero_ellipsis).  The normal form in which the headline theorem compares styles is proved sound "
+        "(normal_form_sound) for every algebra where + is associative with identity and idempotent up to an equivalence "
+        "it respects, rich's real Style algebra (C06 model) is proved to be one (real_styles_idempotent: a + a == a also "
+        "with links, since __eq__ compares _link, not _link_id), and wrap_fold_keeps_real_styles is the headline theorem "
+        "at that algebra (the Style.__eq__-compared fields of the combined Style of every non-whitespace character are "
+        "preserved); a slice of the correspondence and of the direct evaluation runs with real Style objects (bold, "
+        "italic, colours, links, equal styles built differently) so real __add__, copy and __eq__ are exercised.  "
         "partial: (1) because Text.expand_tabs re-applies the base style and Text('').join puts the null style in front, "
         "the headline theorem compares effective styles in a normal form (null erased, adjacent repetitions merged) - "
         "exact equality is proved for tab-free texts with justify other than full; (2) the every-overflow-mode statements "
